@@ -1023,6 +1023,18 @@ class Verifier(Calls):
             st.assume(AND(g >= 1, g < st.alloc))
         if len(gl) > 1:
             st.assume(z3.Distinct(*gl))
+        for gk, invs in REG.glob_invariants.items():
+            if not invs:
+                continue
+            gm = loader.load(gk.split(':')[0])
+            gfr = Frame(gm, gk)
+            T = parse_type(REG.globs[gk])
+            if T[0] == 'list':
+                gv = VList(T[1], z3.Int('G.' + gk))
+                st.assume(AND(self.list_len(st, gv) >= 0,
+                              z3.Select(self.harr(st, LIST_ETYPE, IntS), gv.t) == __import__('pyvc.engine', fromlist=['etype_id']).etype_id(T[1])))
+            for inv in invs:
+                st.assume(self.eval_spec(st, inv, gfr, assume=True))
         for g, (T, init) in c.ghost.items():
             fr.loc[g] = self.coerce(st, self.eval_spec_value(st, init, fr), parse_type(T), fn, 'ghost ' + g)
         return st
@@ -1033,15 +1045,53 @@ class Verifier(Calls):
         return self.make_fresh(st, T, name)
 
     def run_function(self, c, m, fn):
-        st = self.entry_state(c, m, fn)
-        for r in c.requires:
-            st.assume(self.eval_spec(st, r, st.frame, assume=True))
-        for inv in c.closure_invariant:
-            st.assume(self.eval_spec(st, inv, st.frame, assume=True))
+        st0 = self.entry_state(c, m, fn)
+        # a precondition of the shape  (quantifier-free test) or (quantified fact)  -- typically
+        # `x is None or forall(...)` -- is split into two entry states: solvers do badly with quantifiers
+        # under a disjunction, and the body decides the test on every path anyway
+        entries = [st0]
+        for r in list(c.requires) + list(c.closure_invariant):
+            nxt = []
+            for st in entries:
+                g = self.eval_spec(st, r, st.frame, assume=True)
+                if z3.is_app(g) and g.decl().kind() == z3.Z3_OP_ITE and not smt.has_quant(g.arg(0)) and \
+                        smt.has_quant(g) and len(entries) < 8:
+                    # if(c, a, b) with a quantifier in a branch: one entry state per branch
+                    cnd = g.arg(0)
+                    s1 = st.fork()
+                    s1.assume(cnd)
+                    s1.assume(g.arg(1))
+                    st.assume(z3.Not(cnd))
+                    st.assume(g.arg(2))
+                    nxt.extend([s1, st])
+                    continue
+                kids = g.children() if z3.is_or(g) else []
+                qf = [k for k in kids if not smt.has_quant(k)]
+                qq = [k for k in kids if smt.has_quant(k)]
+                if qf and qq and len(entries) < 8:
+                    a = z3.Or(*qf) if len(qf) > 1 else qf[0]
+                    s1 = st.fork()
+                    s1.assume(a)
+                    s2 = st
+                    s2.assume(z3.Not(a))
+                    s2.assume(z3.Or(*qq) if len(qq) > 1 else qq[0])
+                    nxt.extend([s1, s2])
+                else:
+                    st.assume(g)
+                    nxt.append(st)
+            entries = nxt
+        feasible_entries = []
+        for st in entries:
+            v, _, _, _ = smt.decide(list(st.pc) + self.base_axioms(), want_model=False, ext=False)
+            if v != 'unsat':
+                feasible_entries.append(st)
         # vacuity: the precondition must be satisfiable
-        v, _, _, _ = smt.decide(list(st.pc) + self.base_axioms(), want_model=False, ext=False)
-        if v == 'unsat':
+        if not feasible_entries:
             raise Unsupported('vacuous: the precondition of %s is unsatisfiable' % c.key, fn)
+        for st in feasible_entries:
+            self.run_from(c, m, fn, st)
+
+    def run_from(self, c, m, fn, st):
         old = st.fork()
         st.old = old
         self.build_entry_info(st, c)
@@ -1055,7 +1105,7 @@ class Verifier(Calls):
                     rv = self.coerce(s, rv, RT, fn, 'return value of %s' % c.key.split(':')[1])
                     for e in c.lemmas:
                         self.prove(s, self.eval_spec(s, e, s.frame, old=old, result=rv), 'lemma', fn, e)
-                    for e in c.ensures:
+                    for e in list(c.ensures) + list(c.ensures_local):
                         g = self.eval_spec(s, e, s.frame, old=old, result=rv)
                         self.prove(s, g, 'post', fn, e)
                     # closures used as callbacks: the callee updates its ghost state after the call returns
